@@ -12,6 +12,22 @@ from mcx.refmodel import PairJudge, masks_for
 MAXV = 6   # violations recorded per job (the count is kept in full)
 
 
+def omin_must(meas, t, op, m, n):
+    """Smallest overlap o in 1..min(m,n) for which (m,n,o) is a must pair under `op` in {'>=','>'}, or None.
+    The similarity grows with o, so 'must' is monotone in o and bisection applies."""
+    top = min(m, n)
+    if classify(meas, sim_counts(meas, m, n, top), t, op) != 'must':
+        return None
+    lo, hi = 1, top
+    while lo < hi:
+        mid = (lo + hi) // 2
+        if classify(meas, sim_counts(meas, m, n, mid), t, op) == 'must':
+            hi = mid
+        else:
+            lo = mid + 1
+    return lo
+
+
 # ---------------------------------------------------------------- generators
 
 def gen_tables(gen, pres):
@@ -328,11 +344,14 @@ def pair1_cases(meas, t, op, N, allo=12):
             if m <= allo and n <= allo:
                 out.extend((m, n, o) for o in range(1, top + 1))
                 continue
-            omin = None
-            for o in range(1, top + 1):
-                if classify(meas, sim_counts(meas, m, n, o), t, op) == 'must':
-                    omin = o
-                    break
+            if op == '=':
+                omin = None
+                for o in range(1, top + 1):
+                    if classify(meas, sim_counts(meas, m, n, o), t, op) == 'must':
+                        omin = o
+                        break
+            else:
+                omin = omin_must(meas, t, op, m, n)
             if omin is None:
                 continue
             for o in sorted({omin, min(omin + 1, top), top}):
@@ -452,11 +471,7 @@ def w_marith(job):
             lo = fu.get_size_lower_bound(n, meas, t)
             hi = fu.get_size_upper_bound(n, meas, t)
             for m in range(1, N + 1):
-                omin = None
-                for o in range(1, min(m, n) + 1):
-                    if classify(meas, sim_counts(meas, m, n, o), t, '>=') == 'must':
-                        omin = o
-                        break
+                omin = omin_must(meas, t, '>=', m, n)
                 if omin is None:
                     continue
                 cases += 1
